@@ -153,7 +153,49 @@ fn base58_address(p: &mut Prng) -> String {
     }
 }
 
+/// A string with a VALID checksum of one of the four variants over an arbitrary (possibly empty, odd-sized)
+/// payload: passes the checksum gate and reaches the code behind it.
+fn checksummed_text(p: &mut Prng) -> String {
+    use bech32::primitives::iter::Fe32IterExt;
+    use bech32::{Bech32, Bech32m, Fe32, Hrp};
+    let hrp_s: String = match p.below(8) {
+        0 => "lq".into(),
+        1 => "el".into(),
+        2 => "tlq".into(),
+        3 => "ex".into(),
+        4 => "ert".into(),
+        5 => "tex".into(),
+        _ => {
+            let n = p.urange(1, 6);
+            (0..n).map(|_| (b'a' + p.below(26) as u8) as char).collect()
+        }
+    };
+    let hrp = Hrp::parse(&hrp_s).expect("valid hrp");
+    let n = match p.below(6) {
+        0 => 0,
+        1 => 1,
+        2 => p.usize_below(5),
+        3 => p.usize_below(60),
+        _ => p.usize_below(120),
+    };
+    let fes: Vec<Fe32> = (0..n).map(|_| Fe32::try_from(p.below(32) as u8).expect("< 32")).collect();
+    let s: String = match p.below(4) {
+        0 => fes.into_iter().with_checksum::<Bech32>(&hrp).chars().collect(),
+        1 => fes.into_iter().with_checksum::<Bech32m>(&hrp).chars().collect(),
+        2 => fes.into_iter().with_checksum::<Blech32>(&hrp).chars().collect(),
+        _ => fes.into_iter().with_checksum::<Blech32m>(&hrp).chars().collect(),
+    };
+    if p.chance(1, 6) {
+        s.to_ascii_uppercase()
+    } else {
+        s
+    }
+}
+
 fn draw_text(p: &mut Prng, surface: Surface) -> String {
+    if matches!(surface, Surface::AddressText | Surface::Blech32Text) && p.chance(1, 4) {
+        return checksummed_text(p);
+    }
     let valid = match surface {
         Surface::AddressText | Surface::Blech32Text => {
             if surface == Surface::AddressText && p.chance(1, 3) {
